@@ -7,7 +7,8 @@
 (*   nrec  : number of key-blob records the boot ROM loads (records beyond Len(regs) must stay invalid)   *)
 (*   base, sub, len : the image occupies the bytes  base*C + sub .. + len - 1  of the window              *)
 (*   oh, ol : window origin = oh * 65536 + ol  (addresses are pairs of 16-bit limbs: TLC integers are 32 bit) *)
-(*   salign, rule : which cuts of the image the locality clause is checked for                            *)
+(*   salign, rule : which cuts of the image the locality clause is checked for ("all" cell boundaries,    *)
+(*                  "units" = unit boundaries only, "edges" = unit boundaries + first and last boundary)   *)
 (* What is NOT SPSDK's to change: which context answers a fetch (first valid context whose range contains *)
 (* the ABSOLUTE address), whether it decrypts (ADE / mode), and which address-derived value enters the    *)
 (* cipher (OTFAD: the address itself, BEE / IEE-CTR: address >> 4, IEE-XTS: page number).                 *)
@@ -55,8 +56,9 @@ ExpCell(cs, k) == [a |-> Addr(cs, CellLo(cs, k)), n |-> CellN(cs, k), ctx |-> Ow
 \* ---------------------------------------------------------------- locality: admissible cuts (cell indices)
 Cuts(cs) == IF cs.len = 0 THEN {}
             ELSE LET all == {s \in (FirstCell(cs) + 1)..LastCell(cs) : s % cs.salign = 0} IN
-                 IF cs.rule = "all" \/ all = {} THEN all
-                 ELSE {s \in all : s % cs.unit = 0 \/ (\A t \in all : s <= t) \/ (\A t \in all : t <= s)}
+                 CASE cs.rule = "all" \/ all = {} -> all
+                   [] cs.rule = "units" -> {s \in all : s % cs.unit = 0}
+                   [] OTHER -> {s \in all : s % cs.unit = 0 \/ (\A t \in all : s <= t) \/ (\A t \in all : t <= s)}
 NextCut(cs, last) == IF \E s \in Cuts(cs) : s > last
                      THEN CHOOSE s \in Cuts(cs) : s > last /\ \A t \in Cuts(cs) : t > last => s <= t
                      ELSE 0
@@ -101,6 +103,6 @@ Local(o) ==
   /\ o.ok
   /\ pc' = o.s /\ UNCHANGED <<phase, loaded>> /\ Keep
 EndLocal(o) ==
-  /\ phase = "local" /\ NextCut(c, pc) = 0
+  /\ phase = "local" /\ NextCut(c, pc) = 0 /\ o.n = Cardinality(Cuts(c))
   /\ phase' = "done" /\ UNCHANGED <<pc, loaded>> /\ Keep
 =============================================================================
